@@ -3,7 +3,7 @@
    lemma of Proofs/Metrics*Proofs.v, with [Print Assumptions] beneath. *)
 From Coq Require Import QArith.
 From Coupe Require Import Lib.Prelude Lib.SFloat Lib.Csr Model.Metrics Proofs.MetricsCutProofs
-  Proofs.MetricsLambdaProofs Proofs.MetricsLoadProofs Proofs.MetricsGridProofs Gen.MetricsGen.
+  Proofs.MetricsLambdaProofs Proofs.MetricsLoadProofs Proofs.MetricsGridProofs Proofs.MetricsGridGenericProofs Gen.MetricsGen.
 Open Scope Z_scope.
 
 (* The operators and expression shapes that Model/Metrics.v transcribes, as the translator
@@ -116,6 +116,29 @@ Theorem C16_grid_index_bij_3d : forall w h d, (0 < w)%nat -> (0 < h)%nat -> (0 <
      /\ position_of [w; h; d] (index_of [w; h; d] [x; y; z]) = [x; y; z]).
 Proof. exact grid_index_bij_3d. Qed.
 Print Assumptions C16_grid_index_bij_3d.
+
+(* Every dimension D, any positive sides: Grid<D>::index_of and Grid<D>::position_of (the 2D / 3D
+   fast paths and the generic mixed-radix loops alike) are inverse bijections between [0, len)
+   and the box [Forall2 lt pos dims]; distinct cells have distinct positions. *)
+Theorem C16_grid_index_bij_generic : forall dims, Forall (fun s => 0 < s)%nat dims ->
+  (forall i, (i < grid_len dims)%nat ->
+     index_of dims (position_of dims i) = i /\ Forall2 lt (position_of dims i) dims)
+  /\ (forall pos, Forall2 lt pos dims ->
+     (index_of dims pos < grid_len dims)%nat /\ position_of dims (index_of dims pos) = pos).
+Proof. exact grid_index_bij_generic. Qed.
+Print Assumptions C16_grid_index_bij_generic.
+
+(* the hand-specialised 2D / 3D branches compute what the generic loops compute *)
+Theorem C16_grid_fast_paths_are_generic : forall dims, Forall (fun s => 0 < s)%nat dims ->
+  (forall i, (i < grid_len dims)%nat -> position_of dims i = position_loop dims i)
+  /\ (forall pos, length pos = length dims -> index_of dims pos = index_loop 1 dims pos).
+Proof. exact (fun dims H => conj (fun i Hi => position_of_is_loop dims i H Hi) (index_of_is_loop dims)). Qed.
+Print Assumptions C16_grid_fast_paths_are_generic.
+
+Theorem C16_grid_position_injective : forall dims i j, Forall (fun s => 0 < s)%nat dims ->
+  (i < grid_len dims)%nat -> (j < grid_len dims)%nat -> position_of dims i = position_of dims j -> i = j.
+Proof. exact grid_position_injective. Qed.
+Print Assumptions C16_grid_position_injective.
 
 (* u is yielded by neighbors(v) iff u is a cell whose position differs from v's by exactly
    one on exactly one axis ([adjacent_pos]) *)
@@ -296,3 +319,9 @@ Example C16_nonvacuous_grid :
   /\ grid_edge_cut [2; 2; 2]%nat [0; 1; 0; 1; 1; 1; 0; 0]%nat = Ok 6
   /\ lattice_cut [2; 2; 2]%nat [0; 1; 0; 1; 1; 1; 0; 0]%nat = 6.
 Proof. vm_compute. repeat split; reflexivity. Qed.
+
+(* a 4-dimensional 2x3x4x5 grid: a shape only the generic-D theorem reaches *)
+Example C16_nonvacuous_grid_generic :
+  Forall (fun s => 0 < s)%nat [2; 3; 4; 5]%nat /\ grid_len [2; 3; 4; 5]%nat = 120%nat
+  /\ position_of [2; 3; 4; 5]%nat 77 = [1; 2; 0; 3]%nat /\ index_of [2; 3; 4; 5]%nat [1; 2; 0; 3]%nat = 77%nat.
+Proof. repeat split; try reflexivity. repeat constructor. Qed.
